@@ -5,7 +5,7 @@ History: ('ELECT', set, snap) for B.2.c elections, ('EXCLUDE', cid, status, tied
 snap = (votes, keep factors, residual, quota, surplus)."""
 
 
-def count(nc, ns, ballots, tie, P=9, OM=6, kf_round_up=True):
+def count(nc, ns, ballots, tie, P=9, OM=6, kf_round_up=True, omega_le=False):
     S = 10 ** P
     omega = S // 10 ** OM
     hopeful = set(range(1, nc + 1))
@@ -53,7 +53,7 @@ def count(nc, ns, ballots, tie, P=9, OM=6, kf_round_up=True):
                 ev.append(('ELECT', frozenset(new), sn()))
                 status = 'elected'
                 break
-            if surplus < omega:                                      # B.2.e
+            if surplus < omega or (omega_le and surplus == omega):   # B.2.e (omega_le: a deliberately wrong variant, used only to search boundary elections)
                 status = 'omega'
                 break
             if surplus >= last:
